@@ -79,6 +79,9 @@ pub struct TxAnalyzer {
     pub nframes: usize,
     pub over125: usize,
     pub max_frame: usize,
+    /// failures that do not prevent the frame from being analysed further (reported by the world right after `push`)
+    pub soft: Vec<Fail>,
+    pan_reported: bool,
 }
 
 fn efail<T>(key: &str, msg: String) -> Result<T, Fail> {
@@ -87,7 +90,7 @@ fn efail<T>(key: &str, msg: String) -> Result<T, Fail> {
 
 impl TxAnalyzer {
     pub fn new(me: Ll, peer: Ll, pan: Option<u16>) -> TxAnalyzer {
-        TxAnalyzer { me, peer, pan, dgrams: vec![], open: BTreeMap::new(), nframes: 0, over125: 0, max_frame: 0 }
+        TxAnalyzer { me, peer, pan, dgrams: vec![], open: BTreeMap::new(), nframes: 0, over125: 0, max_frame: 0, soft: vec![], pan_reported: false }
     }
 
     fn finish(&mut self, id: usize) -> Result<bool, Fail> {
@@ -103,30 +106,34 @@ impl TxAnalyzer {
         };
         let (s, t) = (Ip::V6(pkt.src), Ip::V6(pkt.dst));
         let mut ndisc = false;
+        // keep the packet even if an upper-layer check below fails, so that a later delivery can be attributed
+        d.pkt = Some(pkt.clone());
+        let mut soft: Vec<Fail> = vec![];
         match pkt.proto {
             PROTO_UDP => {
                 if let Err(e) = decode_udp(&pkt.payload, &s, &t) {
                     if e.contains("zero checksum") {
-                        return efail(
+                        soft.push(Fail::new(
                             "egress:udp-nhc-checksum-zero-sent-instead-of-ffff",
                             format!("UDP datagram {}:{} -> {}:{} ({} payload octets) carries checksum 0x0000 in the LOWPAN_NHC header; a computed checksum of zero must be sent as 0xffff (RFC 768 / RFC 8200 §8.1), a receiver must discard a zero checksum over IPv6", s, u16::from_be_bytes([pkt.payload[0], pkt.payload[1]]), t, u16::from_be_bytes([pkt.payload[2], pkt.payload[3]]), pkt.payload.len() - 8),
-                        );
+                        ));
+                    } else {
+                        soft.push(Fail::new("egress:l4-invalid:udp", format!("{} in reconstructed datagram {}", e, hex(&d.bytes))));
                     }
-                    return efail("egress:l4-invalid:udp", format!("{} in reconstructed datagram {}", e, hex(&d.bytes)));
                 }
             }
             PROTO_TCP => {
                 if let Err(e) = decode_tcp(&pkt.payload, &s, &t) {
-                    return efail("egress:l4-invalid:tcp", format!("{} in reconstructed datagram {}", e, hex(&d.bytes)));
+                    soft.push(Fail::new("egress:l4-invalid:tcp", format!("{} in reconstructed datagram {}", e, hex(&d.bytes))));
                 }
             }
             PROTO_ICMPV6 => match decode_icmp6(&pkt.payload, &s, &t) {
                 Ok(i) => ndisc = (133..=137).contains(&i.ty),
-                Err(e) => return efail("egress:l4-invalid:icmpv6", format!("{} in reconstructed datagram {}", e, hex(&d.bytes))),
+                Err(e) => soft.push(Fail::new("egress:l4-invalid:icmpv6", format!("{} in reconstructed datagram {}", e, hex(&d.bytes)))),
             },
             _ => {}
         }
-        d.pkt = Some(pkt);
+        self.soft.extend(soft);
         Ok(ndisc)
     }
 
@@ -161,11 +168,12 @@ impl TxAnalyzer {
                 }
             }
             None => {
-                if mac.dst_pan == Some(0xa5a5) {
-                    return efail(
+                if mac.dst_pan == Some(0xa5a5) && !self.pan_reported {
+                    self.pan_reported = true;
+                    self.soft.push(Fail::new(
                         "egress:ieee802154-dst-pan-octets-unwritten-with-pan-id-none",
-                        "with Config::pan_id = None the two destination-PAN octets of the MAC header are counted in the header length but never written: the frame carries whatever was in the transmit buffer (0xa5a5 here)".into(),
-                    );
+                        "with Config::pan_id = None the two destination-PAN octets of the MAC header are counted in the header length but never written: the frame carries whatever was in the transmit buffer (0xa5a5 here)",
+                    ));
                 }
             }
         }
@@ -365,7 +373,6 @@ pub struct Cfg {
 
 pub struct Side {
     pub node: Node,
-    pub ll: Ll,
     pub addrs: Vec<[u8; 16]>,
     pub an: TxAnalyzer,
     pub outbox: Vec<(Vec<u8>, FrameInfo)>,
@@ -433,7 +440,6 @@ impl World {
             }
             s.push(Side {
                 node,
-                ll: c.ll,
                 addrs: c.addrs.clone(),
                 an: TxAnalyzer::new(c.ll, cfg.n[1 - i].ll, cfg.pan),
                 outbox: vec![],
@@ -480,7 +486,12 @@ impl World {
             self.s[i].outbox.push((frame, FrameInfo::default()));
             return Ok(());
         }
-        match self.s[i].an.push(&frame) {
+        let pushed = self.s[i].an.push(&frame);
+        for f in std::mem::take(&mut self.s[i].an.soft) {
+            ctx.note(|| format!("    [{}] {}: {}", i, f.key, f.msg));
+            ctx.report(f)?;
+        }
+        match pushed {
             Ok(info) => {
                 if info.ndisc {
                     // neighbour discovery flows immediately, in order, without faults
@@ -621,7 +632,6 @@ impl World {
                         match self.s[i].an.quiescent_check() {
                             Ok(()) => break,
                             Err(f) => {
-                                if std::env::var("C20_DEBUG").is_ok() { eprintln!("QC {}", f.key); }
                                 ctx.report(f)?;
                                 self.tainted = true;
                             }
@@ -650,7 +660,6 @@ impl World {
             }
         }
         ctx.label("pump-end:max-rounds");
-        if std::env::var("C20_DEBUG").is_ok() { return Err(Fail::new("debug:max-rounds", "x")); }
         Ok(false)
     }
 }
